@@ -3,3 +3,4 @@ import LeraxModel.Gae
 import LeraxModel.Env
 import LeraxModel.Rescale
 import LeraxModel.Replay
+import LeraxModel.Batching
